@@ -156,6 +156,47 @@ pub fn disordered_bucket_case(r: &mut Rng, early_first: bool) -> String {
     format!("{{| c_self := {}; c_univ := {}; c_steps := [{}] |}}", n_hex(&self_id), univ_coq(&u), out.join(";\n "))
 }
 
+/// nodes behind one address whose ids share their first 21 bits with each other *and with the table's own id* (other
+/// nodes behind our own NAT after the re-key; any ids on a private network): they fall into different buckets (the
+/// shared prefix says nothing about their distance from us), and still only one of them may stay
+pub fn own_prefix_case(r: &mut Rng, public: bool) -> String {
+    let ip: u32 = if public { PUBLIC_IPS[1] } else { 0x0a00_0042 };
+    let self_id: [u8; 20] = if public { crate::c19::secure_id_for(ip, 5, r) } else { id20(r) };
+    let mut u: Vec<UNode> = Vec::new();
+    // same first 21 bits and same last byte (the r of BEP42) as our id, first difference at bit 30, 47, 70, 100, 140
+    for (k, bit) in [30usize, 47, 70, 100, 140].iter().enumerate() {
+        let mut id = self_id;
+        id[bit / 8] ^= 1 << (7 - bit % 8);
+        for b in (bit / 8 + 1)..19 {
+            id[b] = r.byte();
+        }
+        u.push(UNode { id, ip, port: 1000 + k as u16 });
+    }
+    // and two bystanders on other addresses
+    u.push(UNode { id: id_at_distance(&self_id, 160, r), ip: 0x0a00_0101, port: 1 });
+    u.push(UNode { id: id_at_distance(&self_id, 120, r), ip: 0x0a00_0102, port: 1 });
+    let mut t = RoutingTable::new(Id::from(self_id));
+    let now: u64 = 1000;
+    simclock::set_ms(now);
+    let mut out: Vec<String> = Vec::new();
+    let mut order: Vec<usize> = (0..u.len()).collect();
+    r.shuffle(&mut order);
+    for k in order {
+        let ret = t.add(u[k].node());
+        let nodes = t.to_owned_nodes();
+        out.push(format!(
+            "{{| s_now := {}; s_op := OAdd {}%nat; s_ret := {}; s_size := {}; s_empty := {}; s_dump := {}; s_boot := None |}}",
+            z(now as i128),
+            k,
+            boolean(ret),
+            t.size(),
+            boolean(t.is_empty()),
+            idx_list(&u, &nodes)
+        ));
+    }
+    format!("{{| c_self := {}; c_univ := {}; c_steps := [{}] |}}", n_hex(&self_id), univ_coq(&u), out.join(";\n "))
+}
+
 /// a known id that turns up at another address: the per-IP rules apply to the move as to any newcomer (no second node
 /// with the same 21-bit prefix on that IP)
 pub fn moving_ip_case(r: &mut Rng) -> String {
@@ -200,6 +241,9 @@ pub fn generate(seed: u64, scale: usize) -> Cases {
     cases.push("disordered_bucket_fresh_head", disordered_bucket_case(&mut r, true));
     cases.push("disordered_bucket_stale_head", disordered_bucket_case(&mut r, false));
     cases.push("known_id_moves_to_an_occupied_ip", moving_ip_case(&mut r));
+    for k in 0..4 {
+        cases.push("same_ip_own_prefix", own_prefix_case(&mut r, k % 2 == 0));
+    }
     for _ in 0..(3 * scale.max(1)) {
         for &(n, steps, ips) in shapes {
             cases.push(&format!("n{}_s{}", n, steps), one_case(&mut r, n, steps, ips));
